@@ -1,7 +1,7 @@
 (* One entry point for the correspondence check: a request (an S-expression naming a stage and its input) is
    decoded, run through the model, and the observable encoded back.  Used extracted (driver/) and inside Coq. *)
-From Coq Require Import List String Ascii Bool NArith.
-From Yae Require Import Base.Sexp Model.Ty Gen.Generated Model.Unify Model.Lexer Model.Literal Model.Cst Model.Pratt Model.Desugar Model.Check Model.Num Model.Val Model.Render Model.Builtins Model.Eval.
+From Coq Require Import List String Ascii Bool NArith ZArith.
+From Yae Require Import Base.Sexp Model.Ty Gen.Generated Model.Unify Model.Lexer Model.Literal Model.Cst Model.Pratt Model.Desugar Model.Check Model.Num Model.Val Model.Render Model.Builtins Model.Eval Model.VM.
 Import ListNotations.
 Open Scope string_scope.
 
@@ -229,6 +229,55 @@ Definition run_evalsrc (args : list sexp) : sexp :=
   | _ => bad
   end.
 
+(* ---- the VM: (vmsrc ...) switch loop, (vmcsrc ...) call-threaded loop, (bytecode ...) emitted code and pool ---- *)
+Definition vm_limit : nat :=
+  match assoc "limit" vm_consts with Some z => Z.to_nat z | None => O end.
+
+Definition run_vm (lim : option nat) (args : list sexp) : sexp :=
+  match args with
+  | [h; te; ve; orc; src] =>
+      match dec_fenv h, dec_tenv te, dec_venv ve, dec_oracles orc, dNs src with
+      | Some fe, Some te', Some ve', Some orc', Some src' =>
+          match compile_src fe te' src' with
+          | None => L [A "compile-error"; L []]
+          | Some (a, _) =>
+              match compile_main ops orc' fe a with
+              | COk (code, pool) => enc_outcome (vm_run ops orc' ve' pool lim 5000 code)
+              | _ => L [A "refused:overflow"; L []]
+              end
+          end
+      | _, _, _, _, _ => bad
+      end
+  | _ => bad
+  end.
+
+Definition enc_const (c : const) : sexp :=
+  match c with
+  | CVal v => L [A "val"; enc_val (canon_val sort_entries v)]
+  | CFun sg => L [A "fun"; eName (s_name sg)]
+  | CThunk code rt => L [A "thunk"; eNs code; enc_ty rt]
+  | CType t => L [A "type"; enc_ty t]
+  | CName n => L [A "name"; eName n]
+  end.
+
+Definition run_bytecode (args : list sexp) : sexp :=
+  match args with
+  | [h; te; orc; src] =>
+      match dec_fenv h, dec_tenv te, dec_oracles orc, dNs src with
+      | Some fe, Some te', Some orc', Some src' =>
+          match compile_src fe te' src' with
+          | None => A "compile-error"
+          | Some (a, _) =>
+              match compile_main ops orc' fe a with
+              | COk (code, pool) => L [A "ok"; eNs code; L (map enc_const pool)]
+              | _ => A "refused:overflow"
+              end
+          end
+      | _, _, _, _ => bad
+      end
+  | _ => bad
+  end.
+
 Definition dispatch (req : sexp) : sexp :=
   match req with
   | L (A tag :: args) =>
@@ -248,6 +297,9 @@ Definition dispatch (req : sexp) : sexp :=
       else if tag =? "key" then run_key args
       else if tag =? "valeq" then run_valeq args
       else if tag =? "evalsrc" then run_evalsrc args
+      else if tag =? "vmsrc" then run_vm None args
+      else if tag =? "vmcsrc" then run_vm (Some vm_limit) args
+      else if tag =? "bytecode" then run_bytecode args
       else bad
   | _ => bad
   end.
